@@ -86,11 +86,10 @@ class ContractRegistry:
 
     def get(self, key):
         c = self.contracts.get(key)
-        if c is None:
-            # variants  key#name : call sites pick the first whose `when` guard fits (resolved by the caller)
-            vs = [v for k, v in self.contracts.items() if k.split('#', 1)[0] == key and '#' in k]
-            if vs:
-                return VariantSet(vs)
+        # variants  key#name : call sites pick the first whose parameter shapes fit
+        vs = [v for k, v in self.contracts.items() if k.split('#', 1)[0] == key and '#' in k]
+        if vs:
+            return VariantSet(([c] if c is not None else []) + vs)
         if c is not None and c.inline:
             return None
         return c
